@@ -18,22 +18,22 @@ theorem setAt_nat (w : W) (xs : List Nat) (i v : Nat) (h : i < xs.length) :
   have h1 : (i : Int) < (xs.length : Int) := by omega
   simp [PV.setAt, h0, h1]
 
-theorem gen_node_cache (expf : Rat → Rat) (subs buf : List Nat) :
-    BBGen._BFNode_packed_centroids expf (arr .big subs) (arr .big buf) = arr .big (buf.take subs.length) := by
+theorem gen_node_cache (expf : Rat → Rat) (subs buf : List Nat) (log : PV) :
+    BBGen._BFNode_packed_centroids expf (arr .big subs) (arr .big buf) log = arr .big (buf.take subs.length) := by
   simp [BBGen._BFNode_packed_centroids, PV.takeN, PV.len]
 
 /-- `append_subcluster`: the handle goes to the end of the entry list, its centroid into the next free row -/
-theorem gen_node_append (expf : Rat → Rat) (subs buf : List Nat) (h c : Nat) (hlen : subs.length < buf.length) :
-    BBGen._BFNode_append_subcluster expf (arr .big subs) (arr .big buf) (int h) (int c)
-      = [arr .big (subs ++ [h]), arr .big (buf.set subs.length c)] := by
+theorem gen_node_append (expf : Rat → Rat) (subs buf : List Nat) (log : PV) (h c : Nat) (hlen : subs.length < buf.length) :
+    BBGen._BFNode_append_subcluster expf (arr .big subs) (arr .big buf) log (int h) (int c)
+      = [arr .big (subs ++ [h]), arr .big (buf.set subs.length c), log] := by
   simp [BBGen._BFNode_append_subcluster, PV.len, PV.listAppend, setAt_nat _ _ _ _ hlen]
 
 /-- `update_split_subclusters`: the split entry (first occurrence of its handle, at `i`) is replaced in place by the
 first half, the second half is appended; the buffer rows follow -/
-theorem gen_node_split_update (expf : Rat → Rat) (subs buf : List Nat) (h h1 h2 c1 c2 i : Nat)
+theorem gen_node_split_update (expf : Rat → Rat) (subs buf : List Nat) (log : PV) (h h1 h2 c1 c2 i : Nat)
     (hlen : subs.length < buf.length) (hi : subs.idxOf? h = some i) :
-    BBGen._BFNode_update_split_subclusters expf (arr .big subs) (arr .big buf) (int h) (int h1) (int h2) (int c1) (int c2)
-      = [arr .big (subs.set i h1 ++ [h2]), arr .big ((buf.set i c1).set subs.length c2)] := by
+    BBGen._BFNode_update_split_subclusters expf (arr .big subs) (arr .big buf) log (int h) (int h1) (int h2) (int c1) (int c2)
+      = [arr .big (subs.set i h1 ++ [h2]), arr .big ((buf.set i c1).set subs.length c2), log] := by
   have hil : i < subs.length := by
     obtain ⟨hh, _⟩ := List.idxOf?_eq_some_iff.mp hi
     exact hh
@@ -41,18 +41,19 @@ theorem gen_node_split_update (expf : Rat → Rat) (subs buf : List Nat) (h h1 h
   unfold BBGen._BFNode_update_split_subclusters
   simp only [PV.listIndex, Int.natCast_nonneg, if_true, Int.toNat_natCast, hi]
   rw [setAt_nat _ _ _ _ hil, setAt_nat _ _ _ _ hib]
-  have := gen_node_append expf (subs.set i h1) (buf.set i c1) h2 c2 (by simpa using hlen)
+  have := gen_node_append expf (subs.set i h1) (buf.set i c1) log h2 c2 (by simpa using hlen)
   simp [this]
 
 /-- THE CACHE STAYS ALIGNED WITH THE ENTRIES (`append_subcluster`): if the valid part of the buffer lists the centroids of
 the entries, it still does after the call -/
-theorem gen_node_append_aligned (expf : Rat → Rat) (cent : Nat → Nat) (subs buf : List Nat) (h : Nat)
+theorem gen_node_append_aligned (expf : Rat → Rat) (cent : Nat → Nat) (subs buf : List Nat) (log : PV) (h : Nat)
     (hlen : subs.length < buf.length) (hal : buf.take subs.length = subs.map cent) :
-    let st := BBGen._BFNode_append_subcluster expf (arr .big subs) (arr .big buf) (int h) (int (cent h))
-    BBGen._BFNode_packed_centroids expf (st.getD 0 pynone) (st.getD 1 pynone) = arr .big ((subs ++ [h]).map cent) := by
+    let st := BBGen._BFNode_append_subcluster expf (arr .big subs) (arr .big buf) log (int h) (int (cent h))
+    BBGen._BFNode_packed_centroids expf (st.getD 0 pynone) (st.getD 1 pynone) (st.getD 2 pynone)
+      = arr .big ((subs ++ [h]).map cent) := by
   intro st
-  have hst : st = [arr .big (subs ++ [h]), arr .big (buf.set subs.length (cent h))] :=
-    gen_node_append expf subs buf h (cent h) hlen
+  have hst : st = [arr .big (subs ++ [h]), arr .big (buf.set subs.length (cent h)), log] :=
+    gen_node_append expf subs buf log h (cent h) hlen
   rw [hst]
   simp only [List.getD_cons_zero, List.getD_cons_succ, gen_node_cache]
   congr 1
@@ -62,17 +63,17 @@ theorem gen_node_append_aligned (expf : Rat → Rat) (cent : Nat → Nat) (subs 
 /-- THE CACHE STAYS ALIGNED WITH THE ENTRIES (`update_split_subclusters`): afterwards the entries are
 `subs.set i h1 ++ [h2]` and the valid part of the buffer is `(cache.set i c1) ++ [c2]` — the very list expressions of the
 model's insertion (`ents'`, `cache'` in `BB.ins`) — and it lists the centroids of the entries again -/
-theorem gen_node_split_aligned (expf : Rat → Rat) (cent : Nat → Nat) (subs buf : List Nat) (h h1 h2 i : Nat)
+theorem gen_node_split_aligned (expf : Rat → Rat) (cent : Nat → Nat) (subs buf : List Nat) (log : PV) (h h1 h2 i : Nat)
     (hlen : subs.length < buf.length) (hi : subs.idxOf? h = some i) (hal : buf.take subs.length = subs.map cent) :
-    let st := BBGen._BFNode_update_split_subclusters expf (arr .big subs) (arr .big buf) (int h) (int h1) (int h2)
+    let st := BBGen._BFNode_update_split_subclusters expf (arr .big subs) (arr .big buf) log (int h) (int h1) (int h2)
                 (int (cent h1)) (int (cent h2))
     st.getD 0 pynone = arr .big (subs.set i h1 ++ [h2]) ∧
-    BBGen._BFNode_packed_centroids expf (st.getD 0 pynone) (st.getD 1 pynone)
+    BBGen._BFNode_packed_centroids expf (st.getD 0 pynone) (st.getD 1 pynone) (st.getD 2 pynone)
       = arr .big ((subs.map cent).set i (cent h1) ++ [cent h2]) ∧
     (subs.map cent).set i (cent h1) ++ [cent h2] = (subs.set i h1 ++ [h2]).map cent := by
   intro st
-  have hst : st = [arr .big (subs.set i h1 ++ [h2]), arr .big ((buf.set i (cent h1)).set subs.length (cent h2))] :=
-    gen_node_split_update expf subs buf h h1 h2 (cent h1) (cent h2) i hlen hi
+  have hst : st = [arr .big (subs.set i h1 ++ [h2]), arr .big ((buf.set i (cent h1)).set subs.length (cent h2)), log] :=
+    gen_node_split_update expf subs buf log h h1 h2 (cent h1) (cent h2) i hlen hi
   have hil : i < subs.length := by
     obtain ⟨hh, _⟩ := List.idxOf?_eq_some_iff.mp hi
     exact hh
